@@ -4,7 +4,7 @@ import json, os, sys
 sys.path.insert(0, os.path.dirname(os.path.dirname(os.path.abspath(__file__))))
 
 PY = '/venv/bin/python'
-E2E_EXTRA = (' Also: legacy S3Transfer front-end on real threads with schedule-independent oracles where the property names it; a thin real-scale class (unscaled ChunksizeAdjuster, MiB payloads) in C01/C02; exhaustive single-fault / single-preemption enumeration over a fixed scenario matrix in C03-C06; line-granularity preemption (sys.monitoring): drawn line numbers in a quarter and dense mode in another quarter of the C04/C08/C10/C18 cases, every executed line of a fixed scenario matrix in C08; request latency in virtual time in C04/C05/C07/C08/C10/C11/C18; coverage-guided campaigns (atheris) over the same strategy and oracle in every check.')
+E2E_EXTRA = (' Also (C03-C06, C08, C18): serial-executor cases in which a KeyboardInterrupt is raised inside an S3 call, read or destination operation on the user thread (every such site of a fixed scenario matrix in turn, and in generated programs).' ' Also: legacy S3Transfer front-end on real threads with schedule-independent oracles where the property names it; a thin real-scale class (unscaled ChunksizeAdjuster, MiB payloads) in C01/C02; exhaustive single-fault / single-preemption enumeration over a fixed scenario matrix in C03-C06; line-granularity preemption (sys.monitoring): drawn line numbers in a quarter and dense mode in another quarter of the C04/C08/C10/C18 cases, every executed line of a fixed scenario matrix in C08; request latency in virtual time in C04/C05/C07/C08/C10/C11/C18; coverage-guided campaigns (atheris) over the same strategy and oracle in every check.')
 E2E_NOTE = 'Trusted: vt/detsched.py (scheduler, threading/time shims, executor with ThreadPoolExecutor semantics), vt/fakes3.py (fake S3 + botocore body protocol), vt/fakefs.py (in-memory FS behind OSUtils), scaled ChunksizeAdjuster limits. Verdict = held on every generated case; evidence reports counts, classes and samples.'
 
 def e2e(text, tech, ref):
